@@ -18,6 +18,7 @@ func init() {
 var killOwners = map[string]string{
 	"(*runtime.Thread).CallContext": "the context boundary: turns the termination into the context's 'killed' status",
 	"(*runtime.Thread).Start$1":     "coroutine goroutine: forwards the termination to the resumer through t.end (checked below)",
+	"(*runtime.Thread).closeOnEnd":  "to-be-closed handlers of an ending coroutine: a termination raised by a handler is returned to Thread.end, which forwards it to the resumer",
 	"(*runtime.Runtime).Close":      "closing the runtime",
 	"runtime.DoInContext":           "deprecated helper deferring Runtime.Close",
 	"(*..luaCmd).run":               "the golua command (host)",
@@ -136,6 +137,52 @@ func ruleKill(c *Ctx) *RuleResult {
 	// (c) forwarding chain
 	checkForwardingChain(p, r)
 
+	// (c') Thread.end runs Lua code (the pending __close handlers) only when no
+	// termination is in flight: every call of end that can reach RunContinuation
+	// lies on the exception == nil branch
+	if end := p.Func("runtime", "(*Thread).end"); end != nil {
+		runc := p.Func("runtime", "(*Thread).RunContinuation")
+		exc := end.Params[len(end.Params)-1]
+		n := 0
+		forEachInstr(end, func(ins ssa.Instruction) {
+			call, ok := ins.(*ssa.Call)
+			if !ok {
+				return
+			}
+			cal := call.Call.StaticCallee()
+			if cal == nil || !p.InModule(cal) {
+				return
+			}
+			reach := &Reach{p: p}
+			hit := cal == runc
+			runUncut(reach, []*ssa.Function{cal}, func(e *callgraph.Edge, cur searchState) {
+				if e.Callee.Func == runc {
+					hit = true
+				}
+			})
+			if !hit {
+				return
+			}
+			n++
+			guarded := false
+			gc := newGuardCtx(end)
+			for _, ge := range gc.MustEdges(ins.Block()) {
+				rel, ok := ge.Relation()
+				if ok && rel.Op == token.EQL && ((rel.A == exc && isNilConst(rel.B)) || (rel.B == exc && isNilConst(rel.A))) {
+					guarded = true
+				}
+			}
+			if guarded {
+				r.ok("Thread.end calls " + fnKey(cal) + " (runs Lua) only when no termination is in flight")
+			} else {
+				r.fail("end-runs-lua-after-kill:"+fnKey(cal), p.InstrPos(ins), "Thread.end calls "+fnKey(cal)+", which can run Lua code, also when the coroutine ends because its context was terminated: __close handlers would run after the kill, unmetered (TerminateContext is a no-op once the status is killed)")
+			}
+		})
+		r.count("lua_running_calls_in_Thread.end", n)
+	} else {
+		r.broken("anchor unresolved: runtime.(*Thread).end")
+	}
+
 	// (d) CallContext kill path: between recover() != nil and the type test no
 	// call that can run Lua code (only closeStack.truncate / PopContext)
 	cc := p.Func("runtime", "(*Thread).CallContext")
@@ -244,8 +291,10 @@ func checkForwardingChain(p *Program, r *RuleResult) {
 	forEachInstr(end, func(ins ssa.Instruction) {
 		if call, ok := ins.(ssa.CallInstruction); ok && call.Common().StaticCallee() == send {
 			args := call.Common().Args
-			if args[len(args)-1] == end.Params[len(end.Params)-1] {
-				hop2 = true
+			for v := range backSlice(args[len(args)-1], false) {
+				if v == end.Params[len(end.Params)-1] {
+					hop2 = true
+				}
 			}
 		}
 	})
